@@ -53,7 +53,20 @@ fn check(prop: &str, tier: &str) -> i32 {
             common::merge_reports(&mut r, vec![("E1-seq", r1), ("E2-sched", r2)]);
             r.finish()
         }
-        "C01" | "C08" | "C09" | "C20" => {
+        "C09" => {
+            let mut r = Report::new(prop, tier, "model_checking");
+            r.assumptions = vec![
+                "E1: fjall/lsm-tree, cacache, tokio and scru128 are explored through, not modelled; scratch stores on tmpfs; the clock and the collector are explicit operations".into(),
+                "E2: scheduling points are the verif hooks of Store::read plus a clock actor".into(),
+            ];
+            let mut r1 = Report::new(prop, tier, "model_checking");
+            seq::run(prop, tier, &mut r1);
+            let mut r2 = Report::new(prop, tier, "model_checking");
+            e2::run(prop, tier, &mut r2);
+            common::merge_reports(&mut r, vec![("E1-seq", r1), ("E2-sched", r2)]);
+            r.finish()
+        }
+        "C01" | "C08" | "C20" => {
             let mut r = Report::new(prop, tier, "model_checking");
             r.assumptions = vec![
                 "fjall/lsm-tree, cacache, tokio and scru128 are explored through, not modelled".into(),
@@ -236,6 +249,10 @@ fn main() {
         }
         "driver" => {
             crash::driver(&args[2], &args[3]);
+            0
+        }
+        "driver2" => {
+            crash::driver2(&args[2], &args[3]);
             0
         }
         "recover" => {
